@@ -5,8 +5,9 @@ import Tmv.Model.MempoolCache
   `TTLDuration` expiry is decided by an oracle `expired : WTx → Bool` given to `update`.
 * `recheckTransactions` runs the rechecks concurrently; every `handleRecheckResult` is one atomic
   step touching only its own transaction, the model performs them in pool order.
-* `sort.Slice` is modelled by insertion sort (the comparison is a strict total order on entries
-  with distinct `seq`, so every sorting algorithm yields the same list).
+* `sort.SliceStable` (reap order) is modelled by a stable insertion sort; `sort.Slice` (victims) by
+  the same sort (the comparison is a strict total order on entries with distinct `seq`, so every
+  sorting algorithm yields the same list there).
 
 The model is of the REPAIRED code: `addNewTransaction` returns when the key is already in
 `txByKey`. -/
@@ -210,9 +211,10 @@ def flush (s : State) : State :=
   let s1 := s.txs.foldl removeElem s
   { s1 with cache := s1.cache.reset }
 
-/-- `allEntriesSorted`: the values of `txByKey`, sorted -/
+/-- `allEntriesSorted`: the entries in list (arrival) order, sorted STABLY (`sort.SliceStable`;
+`sortBy` is a stable insertion sort) by priority, then timestamp -/
 def allEntriesSorted (s : State) : List WTx :=
-  sortBy reapBefore (s.byKey.filterMap (fun k => s.txs.find? (fun e => e.tx = k)))
+  sortBy reapBefore s.txs
 
 /-- loop of `ReapMaxBytesMaxGas` -/
 def reapGo (maxBytes maxGas : Int) : List WTx → Int → Int → List Bytes
